@@ -3900,22 +3900,7 @@ impl<'a, const HAS_CR: bool> Parser<'a, HAS_CR> {
 
             // Parse value (if present before , or ])
             if !matches!(self.peek(), Some(b',' | b']' | b'}') | None) {
-                self.set_ib();
-                self.write_bp_open();
-                match self.peek() {
-                    // Nested flow containers need no end of their own (#332)
-                    Some(b'[') => {
-                        self.parse_flow_sequence()?;
-                    }
-                    Some(b'{') => {
-                        self.parse_flow_mapping()?;
-                    }
-                    _ => {
-                        let end = self.parse_flow_scalar()?;
-                        self.set_bp_text_end(end);
-                    }
-                }
-                self.write_bp_close();
+                self.parse_flow_pair_value()?;
             } else {
                 // Empty value (null)
                 self.set_ib();
@@ -3934,6 +3919,33 @@ impl<'a, const HAS_CR: bool> Parser<'a, HAS_CR> {
         self.write_bp_close();
 
         Ok(())
+    }
+
+    /// Parse the value of a flow sequence's single-pair entry (`[k: v]`,
+    /// `[? k : v]`), with the cursor on its first byte.
+    ///
+    /// The same forms as the value of a flow mapping's own entry
+    /// (`parse_flow_mapping_inner`): a property, then an alias, a nested
+    /// container or a scalar. Containers and aliases open their own BP node,
+    /// so only a scalar gets one here. Both callers used to open a node first
+    /// and parse any of the three inside it, which gave `[x: {a: 1}]` a value
+    /// whose only child was the real mapping - it read back as `{}` - and
+    /// left `[b: *x]` a plain scalar that resolved to null.
+    fn parse_flow_pair_value(&mut self) -> Result<(), YamlError> {
+        self.parse_flow_node_properties()?;
+        match self.peek() {
+            Some(b'*') => self.parse_alias(),
+            Some(b'[') => self.parse_flow_sequence(),
+            Some(b'{') => self.parse_flow_mapping(),
+            _ => {
+                self.set_ib();
+                self.write_bp_open();
+                let end = self.parse_flow_scalar()?;
+                self.set_bp_text_end(end);
+                self.write_bp_close();
+                Ok(())
+            }
+        }
     }
 
     /// Parse an implicit mapping entry in flow context: `key : value`
@@ -3973,22 +3985,7 @@ impl<'a, const HAS_CR: bool> Parser<'a, HAS_CR> {
 
         // Parse value (if present before , or ])
         if !matches!(self.peek(), Some(b',' | b']' | b'}') | None) {
-            self.set_ib();
-            self.write_bp_open();
-            match self.peek() {
-                // Nested flow containers need no end of their own (#332)
-                Some(b'[') => {
-                    self.parse_flow_sequence()?;
-                }
-                Some(b'{') => {
-                    self.parse_flow_mapping()?;
-                }
-                _ => {
-                    let val_end = self.parse_flow_scalar()?;
-                    self.set_bp_text_end(val_end);
-                }
-            }
-            self.write_bp_close();
+            self.parse_flow_pair_value()?;
         } else {
             // Empty value (null)
             self.set_ib();
@@ -6802,6 +6799,32 @@ mod tests {
             result.is_ok(),
             "quoted key mapping should parse: {result:?}"
         );
+    }
+
+    /// The value of a single-pair entry in a flow sequence is any flow node,
+    /// not only a scalar.
+    #[test]
+    fn flow_sequence_pair_value_may_be_a_collection_or_an_alias() {
+        for (yaml, expected) in [
+            (&b"[x: {a: 1}]"[..], "[{\"x\":{\"a\":1}}]"),
+            (b"[x: [a]]", "[{\"x\":[\"a\"]}]"),
+            (b"[&x 1, b: *x]", "[1,{\"b\":1}]"),
+            (
+                b"[? x : {a: 1}, ? y : [b]]",
+                "[{\"x\":{\"a\":1}},{\"y\":[\"b\"]}]",
+            ),
+            (b"[x: &a {a: 1}, *a]", "[{\"x\":{\"a\":1}},{\"a\":1}]"),
+            (b"[x: !!str 1, y: 2]", "[{\"x\":\"1\"},{\"y\":2}]"),
+            (b"[x: {}, y: []]", "[{\"x\":{}},{\"y\":[]}]"),
+        ] {
+            let index = crate::yaml::YamlIndex::build(yaml).expect("should parse");
+            assert_eq!(
+                index.root(yaml).to_json_document(),
+                expected,
+                "input: {:?}",
+                core::str::from_utf8(yaml)
+            );
+        }
     }
 
     #[test]
